@@ -1,6 +1,7 @@
 // C12 harness: copies are independent, read-only inputs stay unchanged.
 // Streams (see coq/C12/Corr.v): S scalars / dense vectors of magic scalars, M dense matrices,
-// V sparse vectors, E algorithm entry points and distribution constructors.
+// V sparse vectors, E algorithm entry points and distribution constructors, H (coq/C12/CorrH.v) HISTORIES:
+// sequences of calls of one entry point sharing a caller-owned InSitu struct, and of one estimator.
 //   c12 --seed S --n N --out DIR [--tier quick|thorough]        correspondence cases
 //   c12 --extra hunt  --seed S --n N --out DIR                   property-level search on the implementation
 //   c12 --replay FILE --out DIR                                  re-execute one reported case
@@ -70,14 +71,21 @@ func main() {
 	{
 		w := NewCaseWriter(o.Out, "mcases", hdrZ, "mmism", 25)
 		w.Type = "mcase"
-		w.Rule = "M: history on a world of dense matrices with views and clones; >= 20 operations after the first Clone"
+		w.Rule = "M: history on a world of dense matrices of one of the 9 element types with views and clones; >= 20 operations after the first Clone"
+		w.Extra["dense_matrix_element_types"] = mtypeNames()
 		r := rng.Split()
 		for i := 0; i < nM; i++ {
-			c, hist, key := genMHistory(r.Split(), 20+r.Intn(8))
+			// every dense element type separately: the first 6 histories of each type start with a clone
+			// (CloneMatrix / AsDenseXMatrix / Clone) of a transposed, column-restricted view; then round robin
+			typ, directed := i%len(mtypes), -1
+			if i < 6*len(mtypes) {
+				directed = i / len(mtypes)
+			}
+			c, hist, key := genMHistoryT(r.Split(), 20+r.Intn(8), typ, directed)
 			for k, v := range hist {
 				w.CountN(k, v)
 			}
-			w.Add(c.Coq(), map[string]interface{}{"stream": "M", "real": c.Real, "ops": c.Ops}, key, len(c.Ops) >= 20)
+			w.Add(c.Coq(), map[string]interface{}{"stream": "M", "typ": c.Typ, "real": c.Real, "ops": c.Ops}, key, len(c.Ops) >= 20)
 		}
 		if err := w.Flush(); err != nil {
 			Die("flush: %v", err)
